@@ -83,8 +83,7 @@ class Check(HCheck):
                 ctx.count("has_child")
                 if w.m.pages:
                     ctx.count("child_attached_after_pages")
-            for order in list(itertools.permutations(pl))[:6]:
-                order = list(order)
+            for order in al.orders(pl):
                 try:
                     gp = t.get_webentity_parent_webentities(wid, order)
                     gc = t.get_webentity_child_webentities(wid, order)
